@@ -325,6 +325,20 @@ def check_pdf(chk, rep, repo):
     okmn = len(tr_mn) == 1 and tr_mn[0].value == pi and facts(tr_mn[0].guards) == (("cmp", "<", pi, mn),)
     okmx = len(tr_mx) == 1 and tr_mx[0].value == pi and facts(tr_mx[0].guards) == (("cmp", "<", mx, pi),)
     late = all(e.seq > divs[0].seq for e in tr_mn + tr_mx) if divs else False
+    if not tr_mn and not tr_mx and detached is None:
+        # the same tracking in a loop of its own over every node, after the pdf array is final
+        later = [e for e in s_mn + s_mx if len(e.loops) == 1 and e.loops != (per.lid,)]
+        lids = {e.loops[0] for e in later}
+        if len(lids) == 1:
+            T = w.loops[next(iter(lids))]
+            nlT = node_loop(T)
+            if nlT is not None and nlT[0] == G and nlT[1] is not None and T.first_seq > per.last_seq:
+                piT = ("idx", pdf, nlT[1])
+                tr_mn = [e for e in s_mn if e.loops == (T.lid,)]
+                tr_mx = [e for e in s_mx if e.loops == (T.lid,)]
+                okmn = len(tr_mn) == 1 and tr_mn[0].value == piT and facts(tr_mn[0].guards) == (("cmp", "<", piT, mn),)
+                okmx = len(tr_mx) == 1 and tr_mx[0].value == piT and facts(tr_mx[0].guards) == (("cmp", "<", mx, piT),)
+                late = bool(divs) and not [e for e in pdf_stores if e.seq > T.first_seq]
     local_names = {}
     if detached is not None:
         # min / max found by a separate pass over the finished pdf array, kept in locals and stored once
